@@ -120,6 +120,15 @@ func safeUnmarshal(data []byte, m picobuf.Message) (res string) {
 			}
 			done <- r
 		}()
+		if len(data)%2 == 0 {
+			// half of the calls come right after a rejected input (same goroutine, same message type): what an earlier
+			// call left behind - in the package, in a pool - must not leak into this one
+			if rt := reflect.TypeOf(m); rt.Kind() == reflect.Ptr {
+				if scratch, ok := reflect.New(rt.Elem()).Interface().(picobuf.Message); ok {
+					_ = picobuf.Unmarshal([]byte{0x80}, scratch)
+				}
+			}
+		}
 		if err := picobuf.Unmarshal(data, m); err != nil {
 			r = "err:" + strings.ReplaceAll(err.Error(), "\t", " ")
 			holdError(err)
